@@ -22,9 +22,17 @@ Terminal(smp, c) == smp.det[c] + smp.dif[c] + smp.jmp[c]
 \* discounted payoffs (half units) of a sample: <<fine, coarse>>
 Payoffs(kind, K, smp) == IF smp.coupled THEN <<Pay(kind, K, Terminal(smp, 1)), Pay(kind, K, Terminal(smp, 2))>>
                          ELSE <<Pay(kind, K, Terminal(smp, 1)), 0>>
+\* two-dimensional processes: a component has one terminal value per dimension; the underlying is the mean of the two
+\* (und = 0) or the und-th one; payoffs in quarter units (forward / call / put are positively homogeneous)
+Terminal2(smp, c, j) == smp.det[c][j] + smp.dif[c][j] + smp.jmp[c][j]
+Under2(und, smp, c) == IF und = 0 THEN Terminal2(smp, c, 1) + Terminal2(smp, c, 2) ELSE 2 * Terminal2(smp, c, und)
+Payoffs2(kind, K, und, smp) == IF smp.coupled THEN <<Pay(kind, 2 * K, Under2(und, smp, 1)), Pay(kind, 2 * K, Under2(und, smp, 2))>>
+                               ELSE <<Pay(kind, 2 * K, Under2(und, smp, 1)), 0>>
 SumSeq(s) == FoldSeq(LAMBDA x, y : x + y, 0, s)
 AtLevel(samples, l) == SelectSeq(samples, LAMBDA s : s.lvl = l)
 LevelDiffSum(samples, l) == SumSeq([i \in 1..Len(AtLevel(samples, l)) |-> AtLevel(samples, l)[i].pay2[1] - AtLevel(samples, l)[i].pay2[2]])
+LevelDiffSum4(samples, l) == SumSeq([i \in 1..Len(AtLevel(samples, l)) |-> AtLevel(samples, l)[i].pay4[1] - AtLevel(samples, l)[i].pay4[2]])
+ScaledPrice4(samples, Nl, prodN) == SumSeq([l \in 1..Len(Nl) |-> LevelDiffSum4(samples, l - 1) * (prodN \div Nl[l])])
 LevelFineSum(samples, l) == SumSeq([i \in 1..Len(AtLevel(samples, l)) |-> AtLevel(samples, l)[i].pay2[1]])
 \* price * prod(N_l) = sum_l (level sum) * prod(N_k, k # l)
 ScaledPrice(samples, Nl, prodN) == SumSeq([l \in 1..Len(Nl) |-> LevelDiffSum(samples, l - 1) * (prodN \div Nl[l])])
